@@ -165,6 +165,24 @@ Proof.
   intros o Ho. apply G. now left.
 Qed.
 
+(* the tag selection of the code never yields an empty list (operation.tags or ["default"], then all of them or the first):
+   so every operation is filed in at least one collection - none can vanish because it declares no tags *)
+Lemma sel_tags_nonempty all_tags raw : sel_tags all_tags raw <> [].
+Proof. unfold sel_tags. destruct raw as [|t r]; destruct all_tags; cbn; discriminate. Qed.
+
+Theorem ops_filed_somewhere : forall ops o all_tags raw, In o ops -> o_tags o = sel_tags all_tags raw ->
+  exists t c, In t (o_tags o) /\ find_col (collections ops) t = Some c /\
+    match parse_operation o with
+    | Some ep => In ep (c_endpoints c)
+    | None => In (o_key o, mkW 1 (o_key o)) (c_errors c)
+    end.
+Proof.
+  intros ops o all_tags raw Ho Et. pose proof (sel_tags_nonempty all_tags raw) as Hne. rewrite <- Et in Hne.
+  destruct (o_tags o) as [|t ts] eqn:E; [contradiction|].
+  destruct (ops_accounted ops o Ho t) as [c [Hc Hx]]; [rewrite E; now left|].
+  exists t, c. split; [now left|]. split; [exact Hc|]. destruct (parse_operation o); tauto.
+Qed.
+
 (* ---------------------------------------------------------------- files *)
 Lemma write_all_keeps : forall ws files f k, In (f, k) files -> str_mem f (map fst ws) = false -> In (f, k) (write_all files ws).
 Proof.
